@@ -2,14 +2,21 @@ package common
 
 import (
 	"encoding/binary"
+	"errors"
 	"io"
 	"strings"
 )
+
+// ErrStringTooLong is returned by WriteString for strings whose length does not fit in one byte.
+var ErrStringTooLong = errors.New("string longer than 255 bytes")
 
 // WriteString writes a string preceded by its length (up to 256 bytes)
 // TODO(baumanl): make this better/make sure they work with updates to reliable tubes
 func WriteString(s string, w io.Writer) (int64, error) {
 	var written int64
+	if len(s) > 255 {
+		return written, ErrStringTooLong
+	}
 	// write length of string as one byte
 	n, err := w.Write([]byte{byte(len(s))})
 	written += int64(n)
